@@ -14,7 +14,7 @@
 //      4 C API dense (row-major arrays, piqp_data_dense)                     5 C API sparse (piqp_csc, piqp_data_sparse)
 //
 // protocol (stdin):
-//   case <name> / mode <A|B> / api <k> [kkt] / set <setting> <value>
+//   case <name> / mode <A|B|C> / api <k> [kkt] / set <setting> <value>
 //   dmat <P|A|G> <r> <c> <row-major values>         smat <P|A|G> <r> <c> <nnz> <colptr> <rowidx> <values>
 //   vec <c|b|h|lb|ub> <n> <values>
 //   setup <names>    update <reuse> <names>    solve
@@ -50,10 +50,27 @@ struct Buf {
 static std::vector<Buf> g_live;          // blocks of the current call
 static std::vector<void*> g_keep;        // mode A: kept alive until the end of the case
 
+// mode C: the caller REUSES its buffers: the block handed out for an argument name is the one used for that name in the
+// previous call (when the size still fits exactly), overwritten in place with the new content.  A solver that remembers
+// caller addresses, or anything derived from what used to be stored there, behaves differently from mode A.
+static bool g_modeC = false;
+struct Named { void* p; size_t bytes; };
+static std::vector<std::pair<std::string, Named>> g_named;
 static void* mk(const std::string& name, size_t bytes, int kind)
 {
     Buf b;
     b.bytes = bytes;
+    b.p = nullptr;
+    if (g_modeC) {
+        for (auto& kv : g_named) if (kv.first == name && kv.second.bytes == bytes) b.p = kv.second.p;
+        if (!b.p) {
+            b.p = malloc(bytes ? bytes : 1);
+            bool found = false;
+            for (auto& kv : g_named) if (kv.first == name) { kv.second = Named{b.p, bytes}; found = true; }   // old block stays allocated (kept)
+            if (!found) g_named.push_back({name, Named{b.p, bytes}});
+            g_keep.push_back(b.p);
+        }
+    } else
     b.p = malloc(bytes ? bytes : 1);
     b.name = name;
     b.kind = kind;
@@ -84,6 +101,7 @@ static void after_call(const char* op)
             }
         }
     }
+    if (g_modeC) { g_live.clear(); return; }          // blocks stay where they are, to be overwritten by the next call
     if (!g_modeB) {
         for (Buf& b : g_live) g_keep.push_back(b.p);
         g_live.clear();
@@ -369,7 +387,13 @@ struct CApi : IRun {
     piqp_settings settings;
     explicit CApi(bool d) : dense(d) { piqp_set_default_settings(&settings); }
     ~CApi() override { if (work) piqp_cleanup(work); }
-    bool set(const std::string& k, double v) override { return apply_setting_c(settings, k, v); }
+    bool set(const std::string& k, double v) override
+    {
+        bool ok = apply_setting_c(settings, k, v);
+        // after setup a settings change reaches the solver through piqp_update_settings (the struct is the caller's)
+        if (ok && work) piqp_update_settings(work, &settings);
+        return ok;
+    }
 
     piqp_float* dmat_arg(const char* nm, const DMat& d)
     {
@@ -528,10 +552,12 @@ int main()
             release_kept();
             st = Stage();
             g_modeB = false;
+            g_modeC = false;
+            g_named.clear();
             char* nm = t.next();
             printf("case %s\n", nm ? nm : "?");
         }
-        else if (c == "mode") { char* w = t.next(); g_modeB = (w && w[0] == 'B'); }
+        else if (c == "mode") { char* w = t.next(); g_modeB = (w && w[0] == 'B'); g_modeC = (w && w[0] == 'C'); }
         else if (c == "api") { int a = (int) t.nat(); char* k = t.next(); run.reset(make_runner(a, k ? atoi(k) : 0)); }
         else if (c == "set") { char* k = t.next(); double v = t.num(); if (!run || !run->set(k, v)) printf("error: unknown setting %s\n", k); }
         else if (c == "dmat") {
